@@ -27,8 +27,11 @@ package weighted_sum
 //@   refines model.BiasListener.OnCriteriaRemoved with validParams=wsValid, coversId=wsCovers
 //@   ensures [weights_kept] typeis(result, weightedSumParams) && len(*result.(weightedSumParams).weightedCriteria) == len(*leftCriteria)
 //@             && forall k int :: 0 <= k && k < len(*leftCriteria) ==> (*result.(weightedSumParams).weightedCriteria)[k].Id == (*leftCriteria)[k].Id
+//@   ensures [kept_entries_are_the_parameters_own_entries_type_and_weight_included] forall k int :: 0 <= k && k < len(*leftCriteria) ==>
+//@             exists j int :: 0 <= j && j < len(*params.(weightedSumParams).weightedCriteria) && (*result.(weightedSumParams).weightedCriteria)[k] == (*params.(weightedSumParams).weightedCriteria)[j]
 //@   loop 1 invariant [ctx] fresh(result) && len(result) == len(*leftCriteria)
 //@   loop 1 invariant [kept] forall k int :: 0 <= k && k < iter ==> result[k].Id == (*leftCriteria)[k].Id
+//@   loop 1 invariant [own_entries] forall k int :: 0 <= k && k < iter ==> exists j int :: 0 <= j && j < len(*wParams.weightedCriteria) && result[k] == (*wParams.weightedCriteria)[j]
 
 //@ func (*WeightedSumBiasListener).OnCriterionAdded
 //@   property C07 C18
